@@ -61,6 +61,18 @@ def run (klt : K → K → Bool) (tomb : Ver K → Bool) (sb eb : Bound K) : Hel
     | (h', some o) => o :: run klt tomb sb eb h' ts
     | (h', none) => run klt tomb sb eb h' ts
 
+/-- the read timestamp the store hands a scan (`visible_seq_no`): the number of the last write
+    that has left the wait list.  Writes leave in sequence order, so it lies just below the oldest
+    write still in flight; with none in flight it is the last assigned number. -/
+def readTs (assigned : Nat) : List Nat → Nat
+  | [] => assigned
+  | s :: rest => let t := readTs assigned rest; if s ≤ t then s - 1 else t
+
+/-- a scan opened when `assigned` is the last sequence number handed out and the writes `inflight`
+    have not left the wait list -/
+def openAt (assigned : Nat) (inflight : List Nat) (mem rest : List (Ver K)) : Held K :=
+  ⟨readTs assigned inflight, mem, rest, 0⟩
+
 /-- the calls of a script -/
 def opsOf : List (Tok K) → List (Op (Ver K))
   | [] => []
